@@ -416,7 +416,23 @@ const REWRITERS: &[(&str, &str, &str)] = &[
   ("str", "{kind: string}", "'STR'"),
   ("numc", "{kind: number}", "{template: M, expandEnd: {regex: ','}}"),
   ("arr", "{kind: array}", "'[]'"),
+  ("wrapf", "{pattern: f($X)}", "'wrap($X)'"),
 ];
+
+/// the documented meaning of each rewriter's fix, for the reference of oracle `c06_rewriter`:
+/// (template, meta variable substituted verbatim, swallows a directly following comma)
+fn rewriter_doc(id: &str) -> (&'static str, Option<&'static str>, bool) {
+  match id {
+    "num" => ("N", None, false),
+    "ident" => ("<$I>", Some("I"), false),
+    "call" => ("G[$X]", Some("X"), false),
+    "str" => ("STR", None, false),
+    "numc" => ("M", None, true),
+    "arr" => ("[]", None, false),
+    "wrapf" => ("wrap($X)", Some("X"), false),
+    _ => unreachable!(),
+  }
+}
 
 fn rewriter_config(id: &str) -> RuleConfig<SupportLang> {
   let (_, rule, fix) = REWRITERS.iter().find(|r| r.0 == id).unwrap();
@@ -427,9 +443,10 @@ fn rewriter_config(id: &str) -> RuleConfig<SupportLang> {
 fn gen_js_args(rng: &mut Rng) -> String {
   let atoms = [
     "1", "22", "a", "bé", "中", "g(2)", "g(b)", "g(g(3))", "'x'", "\"é\"", "[1, c]", "h(4, d)", "-5", "a + 1", "g(1) + g(2)",
+    "f(1)", "f(f(2))", "f(g(f(3)))", "g(f(a))", "f(f(f(4)))",
   ];
   let n = rng.below(6);
-  let seps = [", ", ",", " ,\n  "];
+  let seps = [", ", ",", " ,\n  ", ",\n        ", "\n    , "];
   let mut s = String::new();
   for i in 0..n {
     if i > 0 {
@@ -467,16 +484,30 @@ pub fn rewrite_splice(ctx: &Ctx, rng: &mut Rng, o: &mut Out) {
   let m = if ctx.thorough { 6_000 } else { 500 };
   let globals = GlobalRules::default();
   let mut cases = 0usize;
-  for _ in 0..m {
-    // choose an ordered subset of rewriters
-    let mut ids: Vec<&str> = REWRITERS.iter().map(|r| r.0).filter(|_| rng.chance(1, 2)).collect();
-    if ids.is_empty() {
-      ids.push("num");
-    }
-    if rng.chance(1, 2) {
-      ids.reverse();
-    }
-    let joiner: Option<&str> = if rng.chance(1, 2) { Some(*rng.pick(&["+", "", " | ", "é"])) } else { None };
+  // small fixed cases first (nested / recursive rewriter matches with gap text between the items),
+  // then generated ones
+  let fixed: Vec<(Vec<&str>, Option<&str>, &str)> = vec![
+    (vec!["wrapf"], Some(" + "), "f(f(1),\n    f(f(2)))"),
+    (vec!["wrapf"], None, "f(f(1),\n    f(f(2)))"),
+    (vec!["call"], Some(","), "f(a,      g(g(3)))"),
+    (vec!["call", "num"], Some(""), "f(1 ,\n  2 ,\n  g(g(g(3))), 4)"),
+    (vec!["numc", "arr"], Some("|"), "f([1, 2], 3, 4)"),
+  ];
+  for k in 0..m + fixed.len() {
+    let (ids, joiner, fixed_src): (Vec<&str>, Option<&str>, Option<&str>) = if k < fixed.len() {
+      (fixed[k].0.clone(), fixed[k].1, Some(fixed[k].2))
+    } else {
+      // choose an ordered subset of rewriters
+      let mut ids: Vec<&str> = REWRITERS.iter().map(|r| r.0).filter(|_| rng.chance(1, 2)).collect();
+      if ids.is_empty() {
+        ids.push("num");
+      }
+      if rng.chance(1, 2) {
+        ids.reverse();
+      }
+      let joiner = if rng.chance(1, 2) { Some(*rng.pick(&["+", "", " | ", "é", " + "])) } else { None };
+      (ids, joiner, None)
+    };
     let mut yaml = String::from("id: t\nlanguage: JavaScript\nrule: {pattern: 'f($$$ARGS)'}\nrewriters:\n");
     for id in &ids {
       let (_, rule, fix) = REWRITERS.iter().find(|r| r.0 == *id).unwrap();
@@ -488,7 +519,10 @@ pub fn rewrite_splice(ctx: &Ctx, rng: &mut Rng, o: &mut Out) {
     }
     let rule = from_yaml_string::<SupportLang>(&yaml, &globals).expect("rewrite rule loads").remove(0);
     let rws: Vec<RuleConfig<SupportLang>> = ids.iter().map(|id| rewriter_config(id)).collect();
-    let src = format!("f({})", gen_js_args(rng));
+    let src = match fixed_src {
+      Some(t) => t.to_string(),
+      None => format!("f({})", gen_js_args(rng)),
+    };
     let grep = SupportLang::JavaScript.ast_grep(&src);
     let root = grep.root();
     let Some(nm) = root.find(&rule.matcher) else { continue };
@@ -524,27 +558,72 @@ pub fn rewrite_splice(ctx: &Ctx, rng: &mut Rng, o: &mut Out) {
       json!({"old": bytes, "edits": redits_json(&edits), "start": start, "joiner": joiner, "src": src, "rewriters": ids}),
       real.clone(),
     );
-    // oracle: relative to the captured text, bytes outside the kept edits are preserved and the
-    // result is valid UTF-8 (checked on the bytes before the lossy conversion)
-    if joiner.is_none() {
+    // oracle (C06, rewriter clause), reference written from the documentation and computed from
+    // the rewriter *matches* (not from `make_edit`): walking the captured nodes in pre-order, the
+    // first listed rewriter that matches a node proposes to replace that node (plus a directly
+    // following comma for `expandEnd: ','`) by its template with the meta variable's text
+    // substituted; a proposal overlapping an already kept one is dropped (outermost first);
+    // without joinBy the output is the captured text with exactly the kept ranges substituted,
+    // with joinBy it is the kept replacements joined by the separator.
+    {
       let raw = env.get_transformed("NEW").cloned().unwrap_or_default();
       let captured = std::str::from_utf8(&bytes).expect("capture is utf8");
-      let rel: Vec<RawDiff> = edits
-        .iter()
-        .map(|(p, d, t)| ((p - start)..(p - start + d), String::from_utf8_lossy(t).to_string()))
-        .collect();
-      // kept = greedy documented rule
+      let mut proposals: Vec<RawDiff> = vec![];
+      for n in &nodes {
+        for child in n.dfs() {
+          for (id, rw) in ids.iter().zip(rws.iter()) {
+            let Some(m) = rw.matcher.match_node(child.clone()) else { continue };
+            let (tpl, var, comma) = rewriter_doc(id);
+            let mut r = child.range();
+            if comma {
+              if let Some(nx) = child.next() {
+                if nx.text().contains(',') {
+                  r.end = nx.range().end;
+                }
+              }
+            }
+            let rep = match var {
+              Some(v) => {
+                let t = m.get_env().get_match(v).map(|n| n.text().to_string()).unwrap_or_default();
+                tpl.replace(&format!("${v}"), &t)
+              }
+              None => tpl.to_string(),
+            };
+            proposals.push(((r.start - start)..(r.end - start), rep));
+            break;
+          }
+        }
+      }
+      let n_proposals = proposals.len();
       let mut kept: Vec<RawDiff> = vec![];
-      for d in rel {
-        if kept.last().map(|k| k.0.end <= d.0.start).unwrap_or(true) {
+      for d in proposals {
+        let disjoint = kept.iter().all(|k| k.0.end <= d.0.start || d.0.end <= k.0.start);
+        if disjoint {
           kept.push(d);
         }
       }
+      kept.sort_by_key(|d| (d.0.start, d.0.end));
       let in_capture = kept.iter().all(|d| d.0.end <= captured.len());
-      let ok = std::str::from_utf8(&raw).is_ok()
-        && (!in_capture || (raw == reference_splice(captured, &kept).as_bytes() && outside_preserved(captured, &kept, std::str::from_utf8(&raw).unwrap_or(""))));
+      let expect: Option<String> = match joiner {
+        Some(j) => Some(kept.iter().map(|d| d.1.as_str()).collect::<Vec<_>>().join(j)),
+        None if in_capture => Some(reference_splice(captured, &kept)),
+        None => None, // a kept range leaves the capture: the code panics (covered by op rw_make_edit)
+      };
+      let got = std::str::from_utf8(&raw).ok();
+      let ok = match (&expect, got) {
+        (_, None) => false,
+        (Some(e), Some(g)) => e == g && (joiner.is_some() || outside_preserved(captured, &kept, g)),
+        (None, Some(_)) => true,
+      };
       if !ok {
-        o.oracle("c06_rewriter", false, json!({"fp": format!("rewriter splice rewriters={}", ids.join("+")), "src": src, "in_capture": in_capture}));
+        o.oracle(
+          "c06_rewriter",
+          false,
+          json!({"fp": format!("rewriter output joinBy={} overlapping_matches={}", joiner.is_some(), n_proposals != kept.len()),
+                 "rewriters": ids,
+                 "lang": "JavaScript", "source": src, "rule_yaml": yaml, "captured": captured,
+                 "kept_edits": diffs_json(&kept), "expected": expect, "actual": got}),
+        );
       }
     }
   }
@@ -852,8 +931,16 @@ fn gen_html(rng: &mut Rng) -> String {
   for _ in 0..parts {
     match rng.below(4) {
       0 => s.push_str(&format!("<div foo=\"{}\">é text</div>\n", rng.below(10))),
-      1 => s.push_str(&format!("<script>{}</script>\n", gen_js(rng).replace('\n', " "))),
-      2 => s.push_str("<style>a { color: red; }</style>\n"),
+      1 => {
+        if rng.chance(1, 2) {
+          // no space between the tags and the embedded code: edits of the two documents touch
+          let tight = ["foo()", "foo(1);bar(5)", "foo(foo(4))", "var v = 8", "debugger", "1"];
+          s.push_str(&format!("<script>{}</script>\n", rng.pick(&tight)));
+        } else {
+          s.push_str(&format!("<script>{}</script>\n", gen_js(rng).replace('\n', " ")));
+        }
+      }
+      2 => s.push_str(*rng.pick(&["<style>a { color: red; }</style>\n", "<style>a{color:red}</style>\n"])),
       _ => s.push_str("<p foo>中</p>\n"),
     }
   }
@@ -894,6 +981,12 @@ const SCAN_RULES: &[(&str, &str)] = &[
   ("j-ts", "language: ts\nrule: {kind: number}\nfix: '0'\n"),
   ("k-script", "language: html\nrule: {kind: script_element}\nfix: '<script></script>'\n"),
   ("l-var", "language: js\nrule: {pattern: var $A = $B}\nfix: 'let $A = $B'\n"),
+  // edits that TOUCH other edits without overlapping them: tags around an embedded document,
+  // callee + argument list of one call
+  ("m-stag", "language: html\nrule: {kind: start_tag}\nfix: '<x>'\n"),
+  ("n-etag", "language: html\nrule: {kind: end_tag}\nfix: '</x>'\n"),
+  ("o-args", "language: js\nrule: {kind: arguments}\nfix: '()'\n"),
+  ("p-callee", "language: js\nrule: {kind: identifier, regex: '^(foo|bar)$'}\nfix: qux\n"),
 ];
 
 fn gen_project(rng: &mut Rng, k: usize) -> Project {
@@ -920,6 +1013,16 @@ fn gen_project(rng: &mut Rng, k: usize) -> Project {
         if rng.chance(p, 5) {
           config.push((format!("rules/{id}.yml"), format!("id: {id}\n{body}")));
           ids.push(*id);
+        }
+      }
+      if with_html && rng.chance(1, 3) {
+        // make touching edits across documents likely: a tag rule plus a rule on the embedded code
+        for id in ["m-stag", *rng.pick(&["n-etag", "m-stag"]), *rng.pick(&["b-foo", "o-args", "p-callee", "a-num", "d-dbg", "l-var"])] {
+          if !ids.contains(&id) {
+            let body = SCAN_RULES.iter().find(|r| r.0 == id).unwrap().1;
+            config.push((format!("rules/{id}.yml"), format!("id: {id}\n{body}")));
+            ids.push(id);
+          }
         }
       }
       if ids.is_empty() {
@@ -999,6 +1102,7 @@ pub fn update_cli(ctx: &Ctx, rng: &mut Rng, o: &mut Out) {
   let mut edits_total = 0usize;
   let mut multi_doc_files = 0usize;
   let mut unordered_cases = 0usize;
+  let mut touching_files = 0usize;
   let update_op = update_op_name();
   // the minimised H13 witness first, then generated projects
   let witness = Project {
@@ -1011,7 +1115,22 @@ pub fn update_cli(ctx: &Ctx, rng: &mut Rng, o: &mut Out) {
     cmd: vec!["scan".into()],
     class: "scan witness H13".into(),
   };
-  let mut projects = vec![witness];
+  // touching (not overlapping) edits of two documents: start tag 0..8 (html), `foo()` 8..13 (js);
+  // and of one document: callee 8..11, argument list 11..13
+  let rule_file = |id: &str| (format!("rules/{id}.yml"), format!("id: {id}\n{}", SCAN_RULES.iter().find(|r| r.0 == id).unwrap().1));
+  let touching = Project {
+    files: vec![("d.html".into(), "<script>foo()</script>\n".into())],
+    config: vec![("sgconfig.yml".into(), "ruleDirs: [rules]\n".into()), rule_file("m-stag"), rule_file("b-foo")],
+    cmd: vec!["scan".into()],
+    class: "scan witness touching edits of two documents".into(),
+  };
+  let touching_one_doc = Project {
+    files: vec![("d.html".into(), "<script>foo()</script>\n".into()), ("m.js".into(), "foo(1)\n".into())],
+    config: vec![("sgconfig.yml".into(), "ruleDirs: [rules]\n".into()), rule_file("n-etag"), rule_file("o-args"), rule_file("p-callee")],
+    cmd: vec!["scan".into()],
+    class: "scan witness touching edits inside one document".into(),
+  };
+  let mut projects = vec![witness, touching, touching_one_doc];
   for k in 0..n {
     projects.push(gen_project(rng, k));
   }
@@ -1102,6 +1221,7 @@ pub fn update_cli(ctx: &Ctx, rng: &mut Rng, o: &mut Out) {
     // ---- the property itself, per file: all announced edits of the file in document order,
     // minus those starting before the end of an earlier accepted one, spliced into the old text
     let mut expect_count = 0usize;
+    let mut multi_fp: Option<String> = None;
     let mut config_untouched = true;
     for (rel, c) in &p.config {
       if std::fs::read_to_string(d1.path().join(rel)).ok().as_deref() != Some(c.as_str()) {
@@ -1112,16 +1232,21 @@ pub fn update_cli(ctx: &Ctx, rng: &mut Rng, o: &mut Out) {
       o.oracle("c18_update", false, json!({"fp": "-U modified a rule/config file", "class": p.class}));
     }
     for (i, (rel, content)) in p.files.iter().enumerate() {
-      let mut mine: Vec<&Announced> = announced.iter().filter(|a| &a.file == rel).collect();
+      let mine: Vec<&Announced> = announced.iter().filter(|a| &a.file == rel).collect();
       let docs: BTreeSet<usize> = mine.iter().map(|a| doc_rank(&a.file, &a.lang)).collect();
-      // one list for the file: by position (outer first), documents merged
-      mine.sort_by_key(|a| (a.range.start, doc_rank(&a.file, &a.lang), a.node.0, std::cmp::Reverse(a.node.1)));
+      // the property text: the announced edits, "dropping any edit that overlaps an earlier
+      // accepted one". "Earlier" = earlier in the order of announcement: host document first, then
+      // the injected documents, inside a document the pre-order of the matched nodes (`announced`
+      // is sorted that way above). Overlap = the two ranges share a position (touching is not
+      // overlapping). The accepted edits are then substituted in the old text.
       let mut acc: Vec<RawDiff> = vec![];
       for a in &mine {
-        if acc.last().map(|k| k.0.end <= a.range.start).unwrap_or(true) {
+        let overlaps = acc.iter().any(|k| k.0.start < a.range.end && a.range.start < k.0.end);
+        if !overlaps {
           acc.push((a.range.clone(), a.rep.clone()));
         }
       }
+      acc.sort_by_key(|d| (d.0.start, d.0.end));
       expect_count += acc.len();
       let legal = acc.iter().all(|d| d.0.end <= content.len() && content.is_char_boundary(d.0.start) && content.is_char_boundary(d.0.end));
       if !legal {
@@ -1134,8 +1259,15 @@ pub fn update_cli(ctx: &Ctx, rng: &mut Rng, o: &mut Out) {
       if multi {
         multi_doc_files += 1;
       }
+      let touching = acc.windows(2).any(|w| w[0].0.end == w[1].0.start);
+      if multi && (multi_fp.is_none() || touching) {
+        multi_fp = Some(format!("multi-document file (>=2 documents with accepted edits), touching_edits={touching}"));
+      }
+      if touching {
+        touching_files += 1;
+      }
       let fp_class = if multi {
-        "one file with >=2 document payloads each having an accepted edit".to_string()
+        format!("multi-document file (>=2 documents with accepted edits), touching_edits={touching}")
       } else {
         format!("single-document file; {}", p.class)
       };
@@ -1150,21 +1282,18 @@ pub fn update_cli(ctx: &Ctx, rng: &mut Rng, o: &mut Out) {
       }
       let _ = i;
     }
-    let any_multi = p.files.iter().any(|(rel, _)| {
-      announced.iter().filter(|a| &a.file == rel).map(|a| doc_rank(&a.file, &a.lang)).collect::<BTreeSet<_>>().len() >= 2
-    });
     if applied.unwrap_or(0) != expect_count && st1 == "0" {
-      // the count is compared with the edits that should be present; when it differs only because
-      // a multi-document file lost edits the content oracle above already carries the finding
-      let fp = if any_multi {
-        "update-all: one file with >=2 document payloads each having an accepted edit".to_string()
-      } else {
-        format!("-U count differs; {}", p.class)
+      // "Applied N changes" vs the number of edits that should be present; same input class (hence
+      // same fingerprint) as a content failure of a multi-document file of this project
+      let fp = match &multi_fp {
+        Some(c) => format!("update-all: {c}"),
+        None => format!("-U count differs; {}", p.class),
       };
-      o.oracle("c18_update", false, json!({"fp": fp, "class": p.class, "applied": applied, "expect": expect_count}));
+      o.oracle("c18_update", false, json!({"fp": fp, "class": p.class, "applied": applied, "expect": expect_count,
+        "project": {"files": p.files, "config": p.config}, "cmd": p.cmd}));
     }
   }
-  o.oracle("c18_update", true, json!({"cases": cases, "announced_edits": edits_total, "multi_document_files": multi_doc_files, "unordered_injection_payloads_skipped": unordered_cases}));
+  o.oracle("c18_update", true, json!({"cases": cases, "announced_edits": edits_total, "multi_document_files": multi_doc_files, "unordered_injection_payloads_skipped": unordered_cases, "files_with_touching_edits": touching_files}));
 }
 
 /// unit `c06_cli`: the edits the real CLI announces under `--json=stream` (Diff::generate):
